@@ -124,8 +124,16 @@ static void c07_case(const KeyCfg *k, int be, int nblk, int dir, int family, int
     size_t ioff = family ? (size_t)((nblk * 7 + family * 3 + dir) & 15) : 0, ooff = family ? (size_t)((nblk * 5 + family + 2 * dir + 1) & 15) : 0,
            toff = family ? (size_t)((nblk + family) & 7) : 0;
     uint8_t *in = in_ + ioff, *out = out_[0] + ooff, *tw = tw_ + toff;
+    /* the second data family has its pure inputs end where readable memory ends (and the third, begin there): the
+     * input when it is not also the output, and the per-block tweak array, each exactly as long as the call says */
+    if (family == 1 || family == 2) {
+        size_t tn = k->c == CK_MANTIS ? (size_t)nblk * 8 : 1;
+        if (!inplace && n) in = family == 1 ? guard_tail(0, n) : guard_head(0, n);
+        tw = family == 1 ? guard_tail(1, tn) : guard_head(1, tn);
+    }
     fill_data(in, n, family, bs);
-    fill_tweaks(tw, nblk, family + nblk, 555 + (uint32_t)family);
+    if (tw != tw_ + toff) { fill_tweaks(tw_, nblk, family + nblk, 555 + (uint32_t)family); memcpy(tw, tw_, k->c == CK_MANTIS ? (size_t)nblk * 8 : 1); }
+    else fill_tweaks(tw, nblk, family + nblk, 555 + (uint32_t)family);
     single_blocks(k, dir, in, tw, exp_, nblk);
     memset(out_[0], 0xEE, n + 48);
     {
@@ -513,6 +521,7 @@ static void body(void)
 int main(int argc, char **argv)
 {
     parse_opts(argc, argv);
+    g_obj_args_copy = 1;    /* every key, tweak and counter buffer of this harness is at least as long as the length passed with it */
     run_prelude();
     if (!g_opts.sub) engine_error("--sub required");
     return mc_guarded_main(body);
